@@ -174,11 +174,13 @@ def shard(idx, n, tier):
     from hypothesis import given, settings, HealthCheck, Phase, strategies as st
     res = core.Result()
     ndes = (1920 if tier == "thorough" else 96) // n
-    opts = gen.Opts(min_modules=2, max_modules=5 if tier == "thorough" else 4, max_insts=3, wide=False)
+    optsets = [gen.Opts(min_modules=2, max_modules=5 if tier == "thorough" else 4, max_insts=3, wide=False),
+               # nested instance bundles: Pairs of modules which themselves hold Pairs
+               gen.Opts(min_modules=3, max_modules=4, max_insts=2, wide=False, pair_pct=60, array_pct=10, bundle_ports=False)]
 
     @st.composite
     def cases(draw):
-        spec = draw(gen.designs(opts))
+        spec = draw(gen.designs(optsets[0] if draw(st.integers(0, 3)) else optsets[1]))
         nm = len(spec["modules"])
         orders = draw(st.lists(st.integers(0, 119), min_size=60, max_size=60, unique=True)) if nm > 4 else []
         extra = []
